@@ -240,7 +240,14 @@ sint8 espconn_sent(struct espconn *c, uint8 *p, uint16 len) {
 sint8 espconn_secure_sent(struct espconn *c, uint8 *p, uint16 len) {
   return do_sent(c, p, len);
 }
+int sdk_connect_script[16];      /* results of the next espconn_connect calls (0 = request accepted) */
+int sdk_connect_script_len = 0, sdk_connect_script_pos = 0;
 static sint8 do_connect(struct espconn *c) {
+  if (sdk_connect_script_pos < sdk_connect_script_len && sdk_connect_script[sdk_connect_script_pos++] != 0) {
+    /* the SDK refuses the request at once (ESPCONN_RTE, _MEM, _ISCONN ...): nothing is pending, no callback will come */
+    sdk_out("CONNECTREFUSED %d", sdk_connect_script[sdk_connect_script_pos - 1]);
+    return (sint8)sdk_connect_script[sdk_connect_script_pos - 1];
+  }
   sdk_last_conn = c;
   sdk_conn_open = 1;
   if (sdk_disc_pending != 2) sdk_disc_pending = 0;   /* (the close of an established connection is still to be reported: the new
